@@ -455,13 +455,15 @@ def matchfile_from_alignment(
 
         elif label == "ornament":
             ornament_type = al_note["type"]
+            if isinstance(ornament_type, str):
+                ornament_type = [ornament_type]
             snote = score_info[al_note["score_id"]]
             note = perf_info[al_note["performance_id"]]
             ornament_line = MatchOrnamentNote(
                 version=version,
                 anchor=snote.Anchor,
                 note=note,
-                ornament_type=[ornament_type],
+                ornament_type=list(ornament_type),
             )
 
             note_lines.append(ornament_line)
